@@ -309,7 +309,7 @@ pub fn check_trait<S: Oversize>(c: &Case, ctx: &mut CaseCtx) -> Result<(), Failu
                         let mut r = rng(sel);
                         let rz = guard(|| S::PC::check(&keys.vk, [&sess.comms[0]], &bad, [vz], &pr, &mut sp, Some(&mut r)));
                         let vr = guard_plain(|| sess.polys[0].polynomial().evaluate(&at));
-                        let fine = matches!(vr, Out::Ok(x) if x == vz) && reading.is_some() || (what == "point_too_long" && S::is_zero_poly(sess.polys[0].polynomial()));
+                        let fine = matches!(vr, Out::Ok(x) if x == vz) && reading.is_some() || (what == "point_too_long" && vz.is_zero());
                         ctx.check(!accepted(&rz) || fine, sig(P, S::NAME, "check", &format!("{what}_accepted")), || format!("{what}: a proof made for the malformed point verifies there for the polynomial's value at the well-formed point"))?;
                         ctx.label("served_but_sound");
                     }
@@ -324,10 +324,13 @@ pub fn check_trait<S: Oversize>(c: &Case, ctx: &mut CaseCtx) -> Result<(), Failu
                     let mut r = rng(sel);
                     let rc = guard(|| S::PC::check(&keys.vk, [&sess.comms[0]], &bad, [v], &pr, &mut sp, Some(&mut r)));
                     let v2 = guard_plain(|| sess.polys[0].polynomial().evaluate(&at));
-                    let zero_poly = what == "point_too_long" && S::is_zero_poly(sess.polys[0].polynomial()) && v.is_zero();
+                    // a longer point read positionally is the point of the table padded with zeros: the value
+                    // there is p(z) * prod(1 - surplus coordinate), and the surplus coordinates used here (7, 8)
+                    // make that equal to the claimed p(z) only when p(z) = 0
+                    let zero_poly = what == "point_too_long" && v.is_zero();
                     let consistent = matches!(v2, Out::Ok(x) if x == v) || zero_poly;
                     ctx.label_if(accepted(&rc) && consistent, "accepted_value_of_the_positional_reading");
-                    ctx.label_if(accepted(&rc) && zero_poly, "zero_polynomial_verifies_at_a_longer_point");
+                    ctx.label_if(accepted(&rc) && zero_poly, "zero_value_verifies_at_a_longer_point");
                     ctx.check(!accepted(&rc) || consistent, sig(P, S::NAME, "check", &format!("{what}_accepted")), || format!("{what}: verifier accepted a point of the wrong length"))?;
                 }
             }
@@ -724,7 +727,7 @@ pub fn spec() -> PropertySpec {
         rule: "Request kinds x magnitudes around the boundary (supported+1, max+1, 2max+1, supported+2; key variables +1/+2/-2; hiding 0 and beyond the supported hiding bound) inside otherwise valid generated scenarios: a polynomial larger than the key (degree / total degree / number of variables) handed to commit and to open; hiding bound 0, hiding bound beyond the key, hiding without an RNG; points with too few / too many coordinates handed to open and to check; a query for a polynomial that was not supplied, a commitment or an evaluation missing on the verifier side (batch_check, and check_combinations with a withheld combination value; a queried combination the verifier was not given is skipped by the default implementation - the crate's own equation tests rely on that - and is not asserted); mismatched labels between polynomial and commitment; trim beyond the parameters; a commitment presented to check / batch_check under a degree bound outside the enforced set (preferably just below the bound it was made for); an unsupported or inconsistent degree bound handed to commit (beyond supported / beyond max / not enforced / below the polynomial's degree) and to trim (an enforced-bound list containing, at any position and possibly twice, a bound above the supported degree for SonicKZG10 / above the maximum degree for MarlinKZG10, which by design serves bounds up to max_degree - there the committer must still refuse degrees above the supported degree); setup with degree 0, zero / missing / odd variables; the same for KZG10 and multilinear PST through their inherent APIs. Equations a scheme declares outside its domain (Marlin, Sonic, IPA: a degree-bounded polynomial with a coefficient other than one, or next to another polynomial or a constant term) are refused by open_combinations and never answered positively by check_combinations (C06's policy group under this property's id: empty proof, proof over unbounded twins, proof of the admissible [1*p_b] with the value moved by the constant). Oracle: the entry point returns Err or aborts - never a commitment, proof or Ok(true). Where a scheme defines the request instead of refusing it (a longer point whose extra coordinates are ignored, an open that does not look at labels) the check demands that whatever is served is sound: no value the polynomial does not take verifies. In-domain requests never aborting is C01's oracle. Non-trivial: magnitude exactly one past the boundary.",
         assumptions: vec![
             "IPA treats any hiding bound (including 0) as 'hiding' and Ligero parameters do not bound the polynomial size: not out of domain for those schemes",
-            "multilinear Ligero / Brakedown verifiers read a point positionally (tensor vectors, inner products that stop at the shorter operand) and the commitment does not record the number of variables: a point lacking its last coordinate is read as if that coordinate were 0, accepting the polynomial's value at the zero-padded point is treated as scheme-defined, any other accepted value is a violation; a point with a surplus coordinate is refused by the prover and verifies only for the zero polynomial (every inner product vanishes), which is allowed for explicitly - for any other polynomial it is a violation",
+            "multilinear Ligero / Brakedown verifiers read a point positionally (tensor vectors, inner products that stop at the shorter operand) and the commitment does not record the number of variables: a point lacking its last coordinate is read as if that coordinate were 0, accepting the polynomial's value at the zero-padded point is treated as scheme-defined, any other accepted value is a violation; a point with surplus coordinates (7, 8) is refused by the prover; read positionally it is a point of the evaluation table padded with zeros, where the value is p(z) * (1-7)(1-8) - so the claimed p(z) may verify there only when p(z) = 0 (the zero polynomial in particular), and any other accepted value is a violation",
             "PST13 / multilinear PST *commit* with fewer variables than the key is scheme-defined and not asserted; multilinear PST *open* refuses such a polynomial on this tree and is asserted to",
             "schemes without degree-bound or hiding support (PST13: bounds; Hyrax: both fields; Ligero/Brakedown: both, documented as 'does not support hiding') ignore those LabeledPolynomial fields, and the repository's own test templates pass hiding bounds to them: treated as defined behaviour, not as an out-of-domain request",
         ],
